@@ -54,6 +54,9 @@ WORKLOADS = [
     [["tree", "p", None], ["check", "p p"]],
     [["enter"], ["check", "p"], ["exit"], ["check", "p"]],
     [["qmark"], ["tree", "?a", "T"]],
+    [["enter"], ["enter"], ["check", "p"], ["exit"], ["observe"], ["exit"]],
+    [["enter"], ["check", "p"], ["exit"], ["check", "p p"]],
+    [["enter"], ["check", "q"], ["enter"], ["check", "q"], ["exit"], ["check", "q"], ["observe"]],
 ]
 
 
@@ -66,6 +69,11 @@ def instances(tier, seed):
     def weight(w):
         return sum(3 if op[0] in ("tree", "ntree") else 1 for op in WORKLOADS[w])
     ncore_done = 0
+    nw = len(WORKLOADS)
+    # nested context blocks in one thread against blocks at another depth in the other thread
+    must = [(nw - 3, nw - 2), (nw - 1, nw - 2), (nw - 3, nw - 1), (nw - 3, 2), (nw - 1, 3)]
+    for (a, b) in must:
+        out.append(("core", dict(threads=[a, b], maxswitch=4, inside=0)))
     for (a, b) in pairs:
         # heavy pairs (many call-outs => many switch points) only run as long as the budget lasts
         light = weight(a) + weight(b) <= 9
